@@ -49,28 +49,45 @@ Qed.
 Section HybridFacts.
   Variables (to_shaft to_elec : Q -> Q).
 
+  (* no full-PTI step anywhere: electric pass, shaft pass *)
   Theorem hybrid_no_full_pti i : h_any_full i = false ->
     shaft_imbalance to_shaft to_elec i == 0 /\
     elec_imbalance to_shaft to_elec i == h_e0 i - to_elec (s2 to_shaft i).
   Proof.
     intros H. unfold shaft_imbalance, elec_imbalance, shaft_final, elec_final, elec_balanced_with,
-      shaft_balanced_with, e2. rewrite H. cbn [andb]. split; ring.
+      shaft_balanced_with, e2. rewrite H. split; ring.
   Qed.
 
+  (* a full-PTI step somewhere: electric, shaft, electric, shaft -- the shaft side is exact, the electric side
+     is read through one conversion round trip of the power it was balanced with *)
   Theorem hybrid_full_pti i : h_any_full i = true ->
-    elec_imbalance to_shaft to_elec i == 0 /\
-    shaft_imbalance to_shaft to_elec i == to_shaft (elec_final to_shaft to_elec i) - s2 to_shaft i.
+    shaft_imbalance to_shaft to_elec i == 0 /\
+    elec_imbalance to_shaft to_elec i == elec_mid to_shaft to_elec i - to_elec (shaft_final to_shaft to_elec i).
   Proof.
-    intros H. unfold shaft_imbalance, elec_imbalance, shaft_final, elec_balanced_with, shaft_balanced_with.
+    intros H. unfold shaft_imbalance, elec_imbalance, elec_final, elec_balanced_with, shaft_balanced_with.
     rewrite H. split; ring.
   Qed.
 
-  (* a step at which the machine shares the load with the sources (not a full-PTI step): both sides exact *)
-  Theorem hybrid_load_sharing_step i : h_any_full i = true -> h_bal i = true -> h_full i = false ->
-    elec_imbalance to_shaft to_elec i == 0 /\ shaft_imbalance to_shaft to_elec i == 0.
+  (* in a full-PTI step both sides are exact: the machine carries the shaft load, the electric side supplies its conversion *)
+  Theorem hybrid_full_step i : h_any_full i = true -> h_full i = true -> h_bal i = false ->
+    elec_imbalance to_shaft to_elec i == 0 /\ shaft_imbalance to_shaft to_elec i == 0 /\
+    shaft_final to_shaft to_elec i = h_load i /\ elec_final to_shaft to_elec i = to_elec (h_load i).
   Proof.
-    intros A B F. destruct (hybrid_full_pti i A) as [E S]. split; [exact E|]. rewrite S.
-    unfold elec_final, s2, s1. rewrite A, B, F. cbn [andb]. ring.
+    intros A F B. destruct (hybrid_full_pti i A) as [S E].
+    split; [|split; [exact S|]].
+    - rewrite E. unfold elec_mid, shaft_final, e2, s2. rewrite A, F, B. ring.
+    - assert (SF : shaft_final to_shaft to_elec i = h_load i) by (unfold shaft_final; rewrite A, F; reflexivity).
+      split; [exact SF|]. unfold elec_final. rewrite A, SF. reflexivity.
+  Qed.
+
+  (* a step at which the machine shares the load with the sources (not a full-PTI step) *)
+  Theorem hybrid_load_sharing_step i : h_any_full i = true -> h_bal i = true -> h_full i = false ->
+    shaft_imbalance to_shaft to_elec i == 0 /\
+    elec_imbalance to_shaft to_elec i == h_e0 i - to_elec (to_shaft (h_e0 i)).
+  Proof.
+    intros A B F. destruct (hybrid_full_pti i A) as [S E]. split; [exact S|]. rewrite E.
+    assert (M : elec_mid to_shaft to_elec i = h_e0 i) by (unfold elec_mid; rewrite B; reflexivity).
+    unfold shaft_final. rewrite A, F, M. reflexivity.
   Qed.
 
   (* if both compositions of the machine's conversions are within eps of the identity, both balances
@@ -82,30 +99,28 @@ Section HybridFacts.
     Qabs (elec_imbalance to_shaft to_elec i) <= eps /\ Qabs (shaft_imbalance to_shaft to_elec i) <= eps.
   Proof.
     intros H1 H2 Hc Hb. assert (He : 0 <= eps) by (apply Qle_trans with (Qabs (to_shaft (to_elec 0) - 0)); [apply Qabs_nonneg|apply H1]).
+    assert (R : forall x, Qabs (x - to_elec (to_shaft x)) <= eps).
+    { intros x. rewrite <- Qabs_opp. assert (X : - (x - to_elec (to_shaft x)) == to_elec (to_shaft x) - x) by ring. rewrite X. apply H2. }
     destruct (h_any_full i) eqn:A.
-    - destruct (h_bal i) eqn:B.
-      + destruct (hybrid_load_sharing_step i A B (Hb eq_refl)) as [E S]. rewrite E, S. split; cbn; exact He.
-      + destruct (hybrid_full_pti i A) as [E S]. rewrite E, S. split; [cbn; exact He|].
-        unfold elec_final. rewrite A, B. cbn [andb]. unfold e2. apply H1.
+    - destruct (hybrid_full_pti i A) as [S E]. rewrite E, S. split; [|cbn; exact He].
+      unfold shaft_final. rewrite A. destruct (h_full i) eqn:F.
+      + assert (B : h_bal i = false) by (destruct (h_bal i); [discriminate (Hb eq_refl)|reflexivity]).
+        unfold elec_mid, e2, s2. rewrite B, F.
+        assert (X : to_elec (h_load i) - to_elec (h_load i) == 0) by ring. rewrite X. cbn. exact He.
+      + apply R.
     - destruct (hybrid_no_full_pti i A) as [S E]. rewrite E, S. split; [|cbn; exact He].
-      destruct Hc as [Hf|Hf]; [|discriminate]. unfold s2, s1. rewrite Hf.
-      specialize (H2 (h_e0 i)). rewrite <- Qabs_opp.
-      assert (X : - (h_e0 i - to_elec (to_shaft (h_e0 i))) == to_elec (to_shaft (h_e0 i)) - h_e0 i) by ring.
-      rewrite X. exact H2.
+      destruct Hc as [Hf|Hf]; [|discriminate]. unfold s2, s1. rewrite Hf. apply R.
   Qed.
 
-  (* the two powers of the machine differ only by its conversion: unless a second electric pass rewrote
-     the balancing power of a load-sharing machine, the electrical power is the conversion of the shaft
-     power the shaft side was balanced with; in a full-PTI step that shaft power is the whole shaft load;
-     after a second electric pass the shaft power is the conversion of the electrical power *)
+  (* the two powers of the machine differ only by its conversion: the electrical power is always the conversion of
+     the shaft power the shaft side was balanced with; in a full-PTI step that shaft power is the whole shaft load *)
   Theorem hybrid_loss i :
-    (h_any_full i && h_bal i = false -> elec_final to_shaft to_elec i = to_elec (shaft_balanced_with to_shaft i)) /\
-    (h_full i = true -> h_bal i = false -> shaft_balanced_with to_shaft i = h_load i /\
-                        elec_final to_shaft to_elec i = to_elec (h_load i)) /\
-    (h_any_full i = true -> shaft_final to_shaft to_elec i = to_shaft (elec_final to_shaft to_elec i)).
+    elec_final to_shaft to_elec i = to_elec (shaft_balanced_with to_shaft to_elec i) /\
+    (h_full i = true -> h_bal i = false -> shaft_balanced_with to_shaft to_elec i = h_load i /\
+                        elec_final to_shaft to_elec i = to_elec (h_load i)).
   Proof.
-    split; [intros E; unfold elec_final, e2, shaft_balanced_with; rewrite E; reflexivity|].
-    split; [intros F B; unfold elec_final, e2, shaft_balanced_with, s2; rewrite F, B, andb_false_r; split; reflexivity|].
-    intros A. unfold shaft_final. rewrite A. reflexivity.
+    split.
+    - unfold elec_final, shaft_balanced_with, e2. destruct (h_any_full i); reflexivity.
+    - intros F B. unfold elec_final, shaft_balanced_with, shaft_final, e2, s2. rewrite F. destruct (h_any_full i); split; reflexivity.
   Qed.
 End HybridFacts.
